@@ -154,6 +154,9 @@ def classify(sh):
         out = open(sh.log, errors="replace").read()
     except OSError:
         out = ""
+    if "VERIF-INCONCLUSIVE" in out:
+        m = re.search(r"VERIF-INCONCLUSIVE:?(.*)", out)
+        return "infra", "harness reports: " + m.group(1).strip()[:300], out
     if sh.timed_out or "panic: test timed out" in out:
         return "infra", "time-out after %.0fs" % sh.wall, out
     if sh.rc == 0:
